@@ -263,6 +263,17 @@ pub fn cases(tier: Tier) -> Vec<GCase> {
         });
         push(g, if a == zero() || a == one() { Expect::Sat(vec![]) } else { Expect::Unsat }, "component_boolean");
     }
+    // the composer's own constant witnesses as operands
+    for (bit, a, b) in [(one(), fe(10), fe(20)), (zero(), fe(10), fe(20)), (one(), zero(), one()), (zero(), one(), zero()), (fe(7), one(), zero())] {
+        push(Gadget::new("component_select", vec![bit, a, b], |c, ins| Ok(vec![c.component_select(ins[0], ins[1], ins[2])])).with_const_handles(), Expect::Sat(vec![bit * a + (one() - bit) * b]), "component_select/const-handles");
+        push(Gadget::new("component_select_one", vec![bit, a], |c, ins| Ok(vec![c.component_select_one(ins[0], ins[1])])).with_const_handles(), Expect::Sat(vec![one() - bit + bit * a]), "component_select_one/const-handles");
+        push(Gadget::new("component_select_zero", vec![bit, a], |c, ins| Ok(vec![c.component_select_zero(ins[0], ins[1])])).with_const_handles(), Expect::Sat(vec![bit * a]), "component_select_zero/const-handles");
+        push(Gadget::new("gate_mul", vec![bit, a, b], |c, ins| Ok(vec![c.gate_mul(Constraint::new().mult(1).fourth(1).a(ins[0]).b(ins[1]).d(ins[2]))])).with_const_handles(), Expect::Sat(vec![bit * a + b]), "gate_mul/const-handles");
+        push(Gadget::new("gate_add", vec![bit, a, b], |c, ins| Ok(vec![c.gate_add(Constraint::new().left(1).right(2).fourth(3).a(ins[0]).b(ins[1]).d(ins[2]))])).with_const_handles(), Expect::Sat(vec![bit + fe(2) * a + fe(3) * b]), "gate_add/const-handles");
+        let holds = bit == zero() || bit == one();
+        push(Gadget::new("component_boolean", vec![bit], |c, ins| { c.component_boolean(ins[0]); Ok(vec![]) }).with_const_handles(), if holds { Expect::Sat(vec![]) } else { Expect::Unsat }, "component_boolean/const-handles");
+        push(Gadget::new("assert_equal", vec![a, b], |c, ins| { c.assert_equal(ins[0], ins[1]); Ok(vec![]) }).with_const_handles(), if a == b { Expect::Sat(vec![]) } else { Expect::Unsat }, "assert_equal/const-handles");
+    }
     // aliased operands: the same witness on several inputs
     for a in small.iter().take(6) {
         let a = *a;
